@@ -142,7 +142,7 @@ def cgt_family(name, seed=1):
     if name in _family_cache:
         return _family_cache[name]
     if name in MATCHER_FAMILIES:
-        return matcher_family(name)
+        return matcher_family(name, seed)
     fam = FAMILIES[name]
     cfg = write_cfg('MC_Cgt_' + name, cgt_cfg(**fam['cfg']))
     if fam.get('simulate'):
@@ -191,7 +191,7 @@ def cgt_family(name, seed=1):
 # cost pre-pass, stateless same-day reservation, look-ahead split adjustment) is model-checked to REFINE Cgt.tla on
 # every generated ledger, and its own outcome -- with the apportionment now determined -- is replayed into the code.
 
-def matcher_cfg(dayset=3, buy=(0, 1, 2), sell=(0, 1, 2), splits=(1,), events=(), maxcells=4):
+def matcher_cfg(dayset=3, buy=(0, 1, 2), sell=(0, 1, 2), splits=(1,), events=(), maxcells=4, gensteps=False, maxsplits=1, maxevents=1, **_):
     return f'''SPECIFICATION Spec
 CONSTANTS
   N <- MC_N
@@ -202,6 +202,9 @@ CONSTANTS
   SplitKinds = {set_(splits)}
   EventKinds = {set_(events)}
   MaxCells = {maxcells}
+  GenSteps = {'TRUE' if gensteps else 'FALSE'}
+  MaxSplits = {maxsplits}
+  MaxEvents = {maxevents}
 INVARIANTS Refines RefusesUnabsorbable Bookkeeping EmitReplay
 CHECK_DEADLOCK FALSE
 '''
@@ -212,14 +215,23 @@ MATCHER_FAMILIES = {
     'matcher_events_q': dict(dayset=3, buy=(0, 1, 2), sell=(0, 1), splits=(1,), events=(1, 2, 5), maxcells=4),
     'matcher_t': dict(dayset=3, splits=(1, 2), maxcells=5),
     'matcher_events_t': dict(dayset=3, splits=(1,), events=(1, 2, 3, 5, 6), maxcells=4),
+    # random walks (tlc -simulate) through the generator mode: eight day slots, quantities 0..3, two splits and two
+    # cost events per ledger -- far beyond the exhaustive bound; the refinement is checked along every walk and the
+    # machine's exact outcome is replayed
+    'matcher_sim_t': dict(dayset=2, buy=(0, 1, 2, 3), sell=(0, 0, 1, 2), splits=(1, 2, 3), events=(1, 2, 3), maxcells=0,
+                          gensteps=True, maxsplits=2, maxevents=2, simulate='num=400', depth=400),
 }
 
 
-def matcher_family(name):
+def matcher_family(name, seed=1):
     if name in _family_cache:
         return _family_cache[name]
     cfg = write_cfg('MC_' + name[0].upper() + name[1:], matcher_cfg(**MATCHER_FAMILIES[name]))
-    m = tlc('MC_Matcher', cfg, workers=8, timeout=3000)
+    fam = MATCHER_FAMILIES[name]
+    if fam.get('simulate'):
+        m = tlc('MC_Matcher', cfg, workers=8, timeout=3000, simulate=fam['simulate'], seed=seed, depth=fam.get('depth', 400))
+    else:
+        m = tlc('MC_Matcher', cfg, workers=8, timeout=3000)
     log(f'[tlc] MC_Matcher/{name}: refinement Matcher => Cgt held on {m["states"]} distinct states, {m["transitions"]} '
         f'transitions, depth {m["depth"]} ({"cached" if m["cached"] else str(m["wall_s"]) + "s"})')
     wd = workdir('cgt_' + name)
